@@ -24,7 +24,7 @@ CLASS_PROPERTY = {
     "kv_point_read": "C11", "kv_member_scan": "C11",
     "roundtrip_mismatch": "C12", "codec_error": "C12", "codec_stream_differs": "C12", "codec_consumption": "C12",
     "hash_history_dependent": "C13", "hash_changes_after_codec": "C13", "hash_ambiguous": "C13", "hash_differs_across_processes": "C13",
-    "pinned_entry_lost": "C16", "stale_or_ghost_value": "C16", "bound_exceeded": "C16",
+    "lock_not_exclusive": "C16", "pinned_entry_lost": "C16", "stale_or_ghost_value": "C16", "bound_exceeded": "C16",
     "lost_element": "C02", "set_not_linearizable": "C02",
     "unstable_in_epoch": "C06",
     "hang": None,
@@ -238,8 +238,16 @@ PROPS["C16"] = dict(
           "36; no panic. non-trivial = an eviction attempt hit a pinned key, or misses and pins both occurred; "
           "distinct = hash(scenario)"),
     components=dict(real=["qbice_storage::tiny_lfu (policy, LRU regions, sketch, read/write buffers)"], stub=["pin predicate: harness LifecycleListener"]),
-    assumptions=["the per-query lock table built on it is covered at engine level by C02 (single-flight) only"],
+    assumptions=["sequential consistency between scheduling points"],
 )
+PROPS["C16"]["parts"] = [
+    dict(bin="storage_sim", args=["--prop", "C16"], workers=12),
+    dict(bin="storage_sim", args=["--prop", "C16b"], workers=4),
+]
+PROPS["C16"]["rule"] += (" | lock table (4 of 16 workers): QueryLockManager::new(1..8); 2-4 token-scheduled threads take the "
+                         "shared / exclusive lock of 1-3 hot query ids and hold it over 0-3 scheduling points while other "
+                         "operations touch 5-40 cold ids to force eviction; witness counters per hot id: an exclusive holder "
+                         "sees no other holder, a shared holder no exclusive one, for the whole critical section")
 
 PROPS["C11"] = dict(
     bin="kv_sim", packages=["kv_sim"], args=[], selfcheck=False,
